@@ -47,12 +47,15 @@ CTX = [T + n for n in ["_enter_context", "_leave_context", "_pause_contexts", "_
 
 A_ENV_GEN = ("the task body is unknown code behind generator.send/throw/close (environment contract E1/E2); E4: awaiting is acyclic - "
              "while a task's body runs or its context hooks run nothing re-enters that task (site assumptions in contracts/*_c.py)")
-A_UNWRAP = ("unwrap / extract_futures are used through their contracts; their bodies are covered by the bounded stand-in "
-            "bounded:structures (all yielded structures to depth 3 / width 3), labelled bounded, not proved")
+A_UNWRAP = ("unwrap's body is verified against a one-level unfolding of the relation R_unwrap (same shape, futures replaced by their values; "
+            "R_unwrap is defined as the least relation closed under the introduction rules R_intro); _continue uses the caller-facing contract "
+            "unwrap!effectfree (no callout because every leaf is computed at its only call site). extract_futures is used through a trusted "
+            "contract: its body and the 'first failing leaf in structure order' clause of unwrap are covered by the bounded stand-in "
+            "bounded:structures (all yielded structures to depth 2/3, width 3), labelled bounded, not proved")
 
 PROPERTIES = {
     "C01": {
-        "functions": [T + "_continue", T + "_continue_on_generator", T + "_accept_yield_result", T + "_queue_exit",
+        "functions": [T + "_continue", T + "_continue_on_generator", T + "_accept_yield_result", T + "_queue_exit", "async_task.unwrap",
                       T + "_compute", T + "_computed", F + "FutureBase.value", F + "FutureBase.set_value",
                       S + "wait_for", S + "_execute", S + "_continue_with_task"],
         "assumptions": [A_ENV_GEN, A_UNWRAP,
@@ -61,7 +64,7 @@ PROPERTIES = {
         "not_proved": ["whole-program equality with sequential evaluation (composition argument)", "unwrap/extract_futures bodies (bounded)"],
     },
     "C02": {
-        "functions": [T + "_continue", T + "_accept_error", T + "_queue_throw_error", T + "is_blocked",
+        "functions": [T + "_continue", T + "_accept_error", T + "_queue_throw_error", T + "is_blocked", "async_task.unwrap",
                       T + "_continue_on_generator", S + "_handle_async_task", S + "_execute",
                       F + "Future._compute", F + "FutureBase.value", F + "FutureBase.raise_if_error", F + "FutureBase.set_error",
                       B + "BatchBase._compute", B + "BatchBase._computed"],
@@ -121,13 +124,12 @@ PROPERTIES = {
             "PureAsyncDecorator.__call__", "AsyncDecorator.asynq", "AsyncDecorator.__call__", "AsyncDecoratorBinder.asynq",
             "AsyncDecoratorBinder.asyncio", "AsyncAndSyncPairDecorator.__call__", "AsyncAndSyncPairDecoratorBinder.__call__",
             "AsyncProxyDecorator._call_pure", "AsyncAndSyncPairProxyDecorator.__call__", "AsyncWrapper._call_async",
-            "AsyncWrapper.asynq"]] + ["utils.result", "async_task.AsyncTaskResult.__init__"],
+            "AsyncWrapper.asynq", "AsyncAndSyncPairDecorator.__get__"]] + ["utils.result", "async_task.AsyncTaskResult.__init__"],
         "assumptions": ["qcore.decorators.DecoratorBase.__get__/__init__, DecoratorBinder.__call__ and decorate() (compiled dependency) bind "
                         "(decorator, instance) as their shipped source says: assumed; the finite matrix decorator x binding x argument pattern x "
                         "body kind is exercised by the bounded stand-in conventions_agree",
                         "the decorated function, sync_fn and task class are unknown callables (env.fncall)"],
-        "not_proved": ["descriptor binding inside qcore.decorators", "AsyncAndSyncPairDecorator.__get__ (rebinding of sync_fn; bounded only)",
-                       "is_pure_async_fn / get_async_fn / async_call case analysis (bounded only)"],
+        "not_proved": ["descriptor binding inside qcore.decorators", "is_pure_async_fn / get_async_fn / async_call case analysis (bounded only)"],
     },
     "C15": {
         "functions": ["asynq_to_async." + n for n in ["is_asyncio_mode", "AsyncioMode.__enter__", "AsyncioMode.__exit__", "_gather"]] + [
@@ -142,11 +144,12 @@ PROPERTIES = {
     },
     "C19": {
         "functions": ["mock_." + n for n in ["_AsynqWrapper.__call__", "_AsynqWrapper.__setattr__", "_AsynqWrapper.__getattr__",
-                                             "_AsyncioWrapper.__setattr__", "_AsyncioWrapper.__getattr__"]],
+                                             "_AsyncioWrapper.__setattr__", "_AsyncioWrapper.__getattr__", "_AsynqWrapper.__init__",
+                                             "_AsyncioWrapper.__init__", "_PatchAsync.__enter__", "_maybe_wrap_new"]],
         "structural": ["mock-restoration-delegated"],
         "assumptions": ["unittest.mock._patch.__enter__/__exit__/start/stop restore as documented (restoration is entirely delegated: structural obligation); "
                         "the finite matrix target kind x replacement kind x activation style x exit path is exercised by the bounded stand-in mock_patch_all_conventions"],
-        "not_proved": ["_PatchAsync.__enter__ / _maybe_wrap_new case analysis (bounded only)", "restoration itself (unittest.mock)"],
+        "not_proved": ["restoration itself (unittest.mock)", "_AsyncioWrapper.__call__ (nested async def), patch/_patch_object/_make_patch_async argument forwarding (bounded only)"],
     },
     "C12": {
         "functions": ["tools.DeduplicateDecorator.asynq", "tools.DeduplicateDecorator.asynq.callback", "tools.DeduplicateDecorator.dirty"],
@@ -183,9 +186,17 @@ PROPERTIES = {
         "not_proved": ["'exactly the Values in program order' needs a model of the user body: bounded stand-in generators_deliver_values"],
     },
     "C18": {
-        "functions": ["debug.filter_traceback", "generator._AsyncGenerator.__repr__", "generator.Value.__repr__"],
+        "functions": ["debug.filter_traceback", "generator._AsyncGenerator.__repr__", "generator.Value.__repr__",
+                      "debug.write", "debug.str", "debug.repr", "debug.format_error", "debug.format_asynq_stack",
+                      "futures.FutureBase.__repr__", "futures.FutureBase.dump", "batching.BatchBase.__str__", "batching.BatchBase.to_str",
+                      "batching.BatchItemBase.to_str", "batching.BatchBase.dump", "scheduler.TaskScheduler.__str__",
+                      "scheduler.TaskScheduler.__repr__", "scheduler.TaskScheduler.dump", "async_task.AsyncTask.__str__",
+                      "async_task.AsyncTask.to_str", "async_task.AsyncTask.dump", "async_task.AsyncTask._traceback_line",
+                      "async_task.AsyncTask.traceback", "scoped_value.AsyncScopedValue.__str__", "scoped_value.AsyncScopedValue.__repr__",
+                      "scoped_value._AsyncScopedValueOverrideContext.__repr__", "scoped_value._AsyncPropertyOverrideContext.__repr__"],
         "assumptions": ["traceback lines are opaque; `pattern in line` is an uninterpreted containment predicate", "repr/str of user payloads, qcore.inspection / safe_str, traceback.*, pygments are total"],
-        "not_proved": ["traceback gluing across task levels (CPython traceback objects): bounded stand-in", "totality of the remaining __str__/dump methods: bounded stand-in diagnostics_total_and_stack"],
+        "not_proved": ["traceback gluing across task levels (CPython traceback objects): bounded stand-in",
+                       "extract_tb / format_tb / dump_error / debug.dump: bounded stand-in only"],
     },
     "C20": {
         "functions": [S + "_continue_with_batch", S + "_flush_batch", S + "_continue_with_task", S + "_handle_async_task", S + "_execute",
